@@ -35,6 +35,7 @@ type solver struct {
 	timeout  int
 	maxQuery time.Duration
 	inQuery  bool
+	hardTimeouts int
 }
 
 func newSolver(bin string, timeoutMS int, logw io.Writer) *solver {
@@ -150,9 +151,43 @@ func (s *solver) check(pc []string, extra string) string {
 		s.send("(assert " + extra + ")")
 	}
 	s.send("(check-sat)")
-	res := s.readLine()
-	for res == "" {
-		res = s.readLine()
+	// hard watchdog: z3's :timeout is soft (non-linear arithmetic can ignore it)
+	type rl struct {
+		line string
+		err  any
+	}
+	ch := make(chan rl, 1)
+	go func() {
+		defer func() {
+			if r := recover(); r != nil {
+				ch <- rl{"", r}
+			}
+		}()
+		l := s.readLine()
+		for l == "" {
+			l = s.readLine()
+		}
+		ch <- rl{l, nil}
+	}()
+	var res string
+	select {
+	case r := <-ch:
+		if r.err != nil {
+			res = "(error solver died)"
+		} else {
+			res = r.line
+		}
+	case <-time.After(time.Duration(s.timeout)*time.Millisecond + 10*time.Second):
+		s.hardTimeouts++
+		s.unknown++
+		s.queries++
+		s.timeNS += int64(time.Since(t0))
+		fmt.Fprintf(os.Stderr, "gosym: solver exceeded the hard time limit; restarting it (query counted as unknown)\n")
+		s.close()
+		<-ch // reader goroutine ends with an error once the pipe is closed
+		s.start()
+		s.inQuery = false
+		return "unknown"
 	}
 	d := time.Since(t0)
 	s.timeNS += int64(d)
